@@ -417,12 +417,20 @@ func (c *Catalog) AddType(
 	switch typeNotation {
 	case notation.SchemaNotationJSight:
 		s, _ := coreUserTypes.Get(name)
-		es := newExchangeJSightSchema(s.(*jschema.JSchema))
+		js, ok := s.(*jschema.JSchema)
+		if !ok {
+			return d.KeywordError(jerr.RuntimeFailure)
+		}
+		es := newExchangeJSightSchema(js)
 		es.catalogUserTypes = c.UserTypes
 		userType.Schema = es
 	case notation.SchemaNotationRegex:
 		s, _ := coreUserTypes.Get(name)
-		es := newExchangeRegexSchema(s.(*regex.RSchema))
+		rs, ok := s.(*regex.RSchema)
+		if !ok {
+			return d.KeywordError(jerr.RuntimeFailure)
+		}
+		es := newExchangeRegexSchema(rs)
 		userType.Schema = es
 	case notation.SchemaNotationAny, notation.SchemaNotationEmpty:
 		userType.Schema = NewExchangePseudoSchema(typeNotation)
